@@ -73,6 +73,10 @@ def check(run, prog, tier):
     run.rule("C16-M", "the system-bath operator of a site projects on all states of that site: the single-state short cut "
                       "(state index = electronic index) is taken only when the band has as many states as molecules", minimum=2)
     rule_M(run, prog)
+    run.rule("C16-N", "bath number n of a molecule acts on the state recorded when the bath counter stood at n: what is filled while "
+                      "the baths are counted (state of the transition, mode and state of a mode bath) is recorded exactly where the "
+                      "counter advances", minimum=1)
+    rule_N(run, prog)
     run.rule("C16-H", "the hierarchy and its propagator read energies under internal units (reorganisation "
                       "energies, Hamiltonian)", minimum=3)
     from . import intunits
@@ -617,6 +621,30 @@ def rule_D(run, prog):
     ok = len(st) == 1 and st[0].startswith("self.ado = numpy.zeros((self.hsize, self.dim, self.dim)")
     run.obligation(rid, "KTHierarchy.reset_ados", ok, key="full-reset",
                    message="reset_ados must replace the whole array by zeros", loc=r.loc())
+
+
+def rule_N(run, prog):
+    """'... for every system-bath interaction': the hierarchy couples bath n through sys_operators[n] and reads its
+    correlation function at position (n, n) of the matrix.  Molecule.get_SystemBathInteraction counts the baths (a
+    transition without environment has none) and builds operator n from what it recorded for n (qv/counter.py)."""
+    from .. import counter
+    rid = "C16-N"
+    n = 0
+    for q in ("quantarhei.builders.molecules.Molecule", "quantarhei.builders.aggregate_base.AggregateBase",
+              "quantarhei.builders.aggregates.Aggregate"):
+        cls = prog.cls(q)
+        for nme, f in cls.methods.items():
+            if not isinstance(f.node, ast.FunctionDef):
+                continue
+            for X, c, ok, node, why in counter.analyse(f.node):
+                n += 1
+                prog.consulted.add(f.relpath)
+                run.obligation(rid, f.short, ok, key="%s:%s" % (X, c),
+                               message="%s reads `%s[n]` for n below the counter `%s`, but %s; the operator (or bath function) of bath n "
+                                       "is then the one of another transition" % (f.short, X, c, why),
+                               loc=f.loc(node), sample={"container": X, "counter": c})
+    if n < 1:
+        raise AnalysisError("C16-N: no container read by a bath counter found (Molecule.get_SystemBathInteraction has `d`)")
 
 
 def rule_M(run, prog):
